@@ -13,7 +13,7 @@ RULE = (
     "on_error = yield, continue, raise - on freshly loaded CIDs from six storages; relational oracle: continue == accepted "
     "rows of yield, raise == prefix before the first rejection + that same error (type and text), yielded errors keep "
     "their location after the iteration moved on, accepted + rejected == number of data rows; each also compared with "
-    "M-reader. Container faults injected at every row boundary k: unterminated quote opened in row k, undecodable byte in "
+    "M-reader. Container faults injected at every row boundary k: unterminated quote opened in row k, UTF-16 / UTF-32 data without byte order mark, undecodable byte in "
     "row k (files, utf-8 and ascii), fixed record k cut short or its delimiter replaced, ODS/XLSX archives truncated at "
     "every 64th byte and content.xml cut - expected: rows before the fault as usual (a prefix for decoding faults), then "
     "DataFormatError, in every mode. A case is (CID, table, storage, fault) over the three modes, distinct by digest, "
@@ -239,6 +239,12 @@ def fault_cases(ctx, index):
                         continue
                     fault = {"kind": "undecodable-byte", "row": k + 1, "encoding": enc, "prefix_rows": max(0, k - model.header), "deterministic_prefix": False}
                     check_fault_bytes(ctx, model, store, data, table[:k], fault, enc)
+            # the codec itself refuses the input before the first character: data of a CID that declares UTF-16 / UTF-32
+            # written without the byte order mark these encodings start with
+            for enc in ("utf-16", "utf-32"):
+                data = storage.delimited_text(table, model.quote, model.escape).encode(enc + "-le")
+                fault = {"kind": "missing-byte-order-mark", "row": 1, "encoding": enc, "prefix_rows": 0, "deterministic_prefix": False}
+                check_fault_bytes(ctx, model, store, data, [], fault, enc)
     elif kind == "fixed":
         widths = model.widths()
         delim = {"lf": "\n", "cr": "\r", "crlf": "\r\n", None: "\n"}[model.line_delimiter]
